@@ -50,10 +50,10 @@ def make_ops(idx, seed):
             ar = 1 if f == "f" else 2
             ops.append(f"uterm {f} " + " ".join(str(rng.randrange(nterms)) for _ in range(ar))); nterms += 1
     else:
-        nv = rng.randint(2, 4)
+        nv = rng.randint(3, 5) if th in ("idl", "rdl") else rng.randint(2, 4)
         for k in range(nv):
             ops.append(f"var {k}")
-    for _ in range(rng.randint(4, 10)):
+    for _ in range(rng.randint(8, 18) if th in ("idl", "rdl") else rng.randint(4, 10)):
         new_atom()
     for _ in range(rng.randint(15, 60)):
         c = rng.random()
@@ -133,7 +133,19 @@ def run_case(args):
                 if stack:
                     stack.pop(); checked.pop()
                 backtracked()
-            elif o[0] == "sat":
+            elif o[0] in ("sat", "unknown") and "|" in o:
+                # deductions: the reason of each must be made of currently asserted literals
+                for part in out.split("|")[1:]:
+                    w = part.split()
+                    reason = [(int(x.split(":")[0]), int(x.split(":")[1])) for x in w[3:]]
+                    res["deductions"] = res.get("deductions", 0) + 1
+                    if not set(reason) <= set(stack):
+                        res["problems"].append({"what": f"`{op}`: the reason {reason} of the deduced literal {w[1]} mentions literals that are "
+                                                        f"not currently asserted (asserted: {sorted(set(stack))})", "kind": "stale"})
+                        break
+                if res["problems"]:
+                    break
+            if o[0] == "sat":
                 checked[:] = [True] * len(checked)
                 if t[1] == "1":
                     claims.append((list(stack), tainted))
@@ -205,6 +217,7 @@ def run(tier):
     for r in results:
         b = by.setdefault(r["theory"], {"cases": 0, "verdicts": 0, "conflicts": 0, "consistency_claims": 0})
         b["cases"] += 1; b["verdicts"] += r["verdicts"]; b["conflicts"] += r["conflicts"]; b["consistency_claims"] += r["sat_claims"]
+        b["deductions"] = b.get("deductions", 0) + r.get("deductions", 0)
         chk.case(key=(r["idx"], r["verdicts"], r["conflicts"]), nontrivial=r["conflicts"] > 0 or r["sat_claims"] > 0,
                  sample={"theory": r["theory"], "operations": len(r["ops"]), "conflicts": r["conflicts"], "consistency_claims": r["sat_claims"]}
                  if r["conflicts"] else None)
